@@ -188,6 +188,22 @@ theorem C44_fragment_full_false : ¬ C44_fragment_full := by
   revert this
   decide
 
+
+/-- … and in `by` mode: `sum by (__name__, a) (abs (sel))` — `abs` drops the metric name, the
+    analyzer still shards by it -/
+private def bq : FExpr := .aggBy "sum" ["__name__", "a"] List.sum (.fn "abs" true some (.sel "{__name__=~\"m0|m1\"}" fun _ => true))
+private def bS : Vec := [([("__name__", "m0"), ("a", "1")], 1), ([("__name__", "m1"), ("a", "1")], 2)]
+private def bHash : Labels → Nat := fun l => if l = [("__name__", "m0"), ("a", "1")] then 0 else 1
+
+theorem C44_fragment_full_false_by :
+    analyze bq.toExpr = ⟨some ["__name__", "a"], true⟩ ∧
+    ¬ ((shardIndices 2).flatMap fun i => eval bq.toV (bS.filter fun s => shardMatches bHash 2 i ["__name__", "a"] true s.1)).Perm
+      (eval bq.toV bS) := by
+  refine ⟨by decide, fun h => ?_⟩
+  have := h.length_eq
+  revert this
+  decide
+
 -- non-vacuity of C44_sound: a nested by-aggregation that the analyzer shards by `a`
 example : analyze (FExpr.aggBy "max" ["a"] (fun _ => 0) (.fn "abs" true some (.aggBy "sum" ["a", "b"] List.sum (.sel "m0" fun _ => true)))).toExpr
     = ⟨some ["a"], true⟩ := by decide
